@@ -35,12 +35,20 @@ def from_kd_buf_contract(it, func, args, kwargs, node):
     return ev
 
 
-def make_parser(sess, ctx):
+def make_parser(sess, ctx, prefix=None):
     it = sess.it
     cls = sess.module(MOD).ns['KdBufParser']
     tp = libattr.new_symmap('old.threads_pids', 'int')
     pn = libattr.new_symmap('old.pids_names', 'atom')
     p = it.call(cls, [tp, pn], {})
+    # the tables handed to the constructor are the ones the parser fills (whatever they contain, empty included): the
+    # caller - PyKdebugParser, TracesParser - reads the thread map out of these very objects
+    root = (prefix or 'C02/parse').split('/')[0]
+    same = p.fields.get('threads_pids') is tp and p.fields.get('pids_names') is pn
+    ctx.oblige(root + '/KdBufParser.__init__/fills-the-tables-of-the-caller', z3.BoolVal(same))
+    if not same:
+        ctx.notes['unshared_tables'] = True
+        p.fields['threads_pids'], p.fields['pids_names'] = tp, pn      # keep exploring the rest with the caller's tables
     return p, tp, pn
 
 
@@ -120,7 +128,7 @@ def verify_set_thread_map(run, tier, prefix_root='C02'):
 
     def thunk(ctx):
         state.clear()
-        p, tp, pn = make_parser(sess, ctx)
+        p, tp, pn = make_parser(sess, ctx, prefix)
         state['p'] = p
         n = z3.Int('tm.n')
         ctx.facts.append(n >= 0)
@@ -267,7 +275,7 @@ def verify_parse_v2(run, tier, wf=True):
             ctx.facts += [f.N >= 4, f.byte(0) == 0x00, f.byte(1) == 0x02, f.byte(2) == 0xaa, f.byte(3) == 0x55]
         reader = stream.Reader(f, 0)
         state['reader'] = reader
-        p, tp, pn = make_parser(sess, ctx)
+        p, tp, pn = make_parser(sess, ctx, prefix)
         g = it.call(sess.func(MOD + ':KdBufParser.parse'), [p, reader], {})
         ctx.oblige(prefix + '/is-a-generator', z3.BoolVal(isinstance(g, GenVal)))
         if not isinstance(g, GenVal):
